@@ -10,6 +10,17 @@ CLAIMED = {
    note="Trusts: my Monitor's reading of the property (requested statements and their unvisited dependencies run before anything else); graphs are well-formed (acyclic, closed). Guards/requests are simulated, expressions are not evaluated here (C01/C02 do that)."),
 }
 
+CLAIMED.update({
+ "C01": dict(engine="E-step", level="exploration", design_ref="DESIGN.md §4 E-step / C01, Appendix A",
+   technique="deterministic simulation: seeded caller histories over seeded builder programs, interpreter schedules owned by the simulator, lock-step refinement of two real steppers against an executable reference model",
+   text="Seeded search over builder programs x initial states x caller histories (run(max_steps), run(t_end), run_single_step sequences, continuing after failed/switched/raised steps); the interpreter additionally runs under tape-chosen dependency/sink iteration orders re-drawn every step. Every event and the persistent store/next_phase after every step of NumpyInterpreter and of the exec()'d generated class are compared with a reference stepper that executes the builder calls in written order. Sampled, not exhaustive.",
+   note="Trusts the reference stepper (~200 lines, no dagrt/pymbolic code) and CPython/numpy arithmetic. Programs obey the well-definedness rules of DESIGN.md §3.4; ill-defined runs are discarded and counted. Values are compared exactly; a 1e-9 tolerance is used only after the reference observes Python's compensated sum() and naive addition disagree."),
+ "C02": dict(engine="E-sched", level="exploration", design_ref="DESIGN.md §4 E-sched / C02",
+   technique="deterministic simulation: simulator-owned scheduler executes sampled and race-directed linear extensions of the recorded dependency graph through the real interpreter callbacks on a recording store; history equivalence with written order",
+   text="For seeded builder programs the real CodeBuilder's recorded graph is explored by a simulator-owned scheduler: random, latest-first, PCT and race-directed linear extensions (a directed schedule for every pair of unordered statements whose recorded dynamic accesses conflict or that are externally visible), from 1..3 initial stores. Each schedule is executed through the real evaluate_condition/exec_* and must give the events, terminator and final variable values of written order; structural checks cover edge direction, guard structure (else_ negation), single flag assignment and fresh-name uniqueness.",
+   note="A race is reported only when a concrete schedule diverges (no false alarms from over-strict reading of 'ordered'); candidates that never diverge on the tried stores are only counted. User functions are pure; call order is not compared."),
+})
+
 NOT_APPLICABLE = {
  "C06": "pure tree->tree function (simplify_ast) quantified over trees x truth assignments: no schedule, history, fault or configuration for a simulator to own; reached only indirectly through C01/C05",
  "C07": "rewriting passes are pure structured-program->structured-program functions run top to bottom; nothing to schedule or inject; reached only indirectly through C03",
